@@ -614,8 +614,8 @@ pub fn run(ctx: &mut Ctx) {
     ctx.rule = "histories of 1..5 run(n_collect 0..60, n_discard 0..60) calls on user-defined counting chains (1..32 chains, dim 1..16, chain-specific delays, pool sizes 1..16); MH / Gibbs twins (continuation, burn-in suffix, manual stepping); HMC with injected momenta/uniforms and a step trace; NUTS chains with a transition trace and the multi-chain runner; non-trivial = n_discard >= 1, n_collect >= 2, n_chains >= 2; distinct by case fingerprint".into();
     ctx.assume("HMC continuation is compared under injected momenta/uniforms (hook), so it does not depend on which generator the sampler uses");
     let t = ctx.tier;
-    ctx.section("counter", "counting chains: shape, row c = chain c, entry k = prior + n_discard + k + 1, no transition more than needed, across consecutive calls", t.pick(4000, 400_000), 16, counter_strategy, check_counter);
-    ctx.section("mh-gibbs", "run(a,d)+run(b,0) = run(a+b,d) of a twin; run(a,d) = rows d.. of run(a+d,0); manual step() on a twin; final state = last row", t.pick(600, 60_000), 16, sampler_strategy, check_sampler);
-    ctx.section("hmc", "rows = traced positions after n_discard+k+1 steps; exact step count; continuation under injected randomness; final state", t.pick(250, 25_000), 16, hmc_strategy, check_hmc);
-    ctx.section("nuts", "row k = state after n_discard+k transitions (trace); counter advance; prefix consistency; NUTS::run = stand-alone chains with seeds s+i+1", t.pick(120, 12_000), 16, nuts_strategy, check_nuts);
+    ctx.section("counter", "counting chains: shape, row c = chain c, entry k = prior + n_discard + k + 1, no transition more than needed, across consecutive calls", t.pick(40_000, 1_200_000), 16, counter_strategy, check_counter);
+    ctx.section("mh-gibbs", "run(a,d)+run(b,0) = run(a+b,d) of a twin; run(a,d) = rows d.. of run(a+d,0); manual step() on a twin; final state = last row", t.pick(6_000, 200_000), 16, sampler_strategy, check_sampler);
+    ctx.section("hmc", "rows = traced positions after n_discard+k+1 steps; exact step count; continuation under injected randomness; final state", t.pick(4_000, 120_000), 16, hmc_strategy, check_hmc);
+    ctx.section("nuts", "row k = state after n_discard+k transitions (trace); counter advance; prefix consistency; NUTS::run = stand-alone chains with seeds s+i+1", t.pick(2_000, 60_000), 16, nuts_strategy, check_nuts);
 }
